@@ -114,7 +114,7 @@ def identitySup (_ m : Coords Rat) : Except Err (Coords Rat × Transform Rat) :=
   .ok (m, ⟨List.replicate k V3.zero, List.replicate k M3.one, List.replicate k V3.zero⟩)
 
 def parseCfg (minA maxIter qlo qhi thr : String) : Option WooCfg := do
-  some ⟨← minA.toNat?, ← maxIter.toNat?, ← parseRat qlo, ← parseRat qhi, ← parseRat thr⟩
+  some ⟨← minA.toNat?, (← maxIter.toInt?).toNat, ← parseRat qlo, ← parseRat qhi, ← parseRat thr⟩
 
 def parseMaxIter (s : String) : Option Int := s.toInt?
 
@@ -164,8 +164,7 @@ def step (_ : Unit) (line : String) : Unit × String :=
       | _, _, _, _, _ => "bad-op"
     | ["woo", dimF, mf, dimM, mm, n, f, mo, minA, maxIter, qlo, qhi, thr] =>
       match mf.toNat?, mm.toNat?, n.toNat?, parseMaxIter maxIter with
-      | some mf, some mm, some n, some mi =>
-        if mi < 1 then "ERR:ValueError" else
+      | some mf, some mm, some n, some _ =>
         match parseCoords dimF mf n f, parseCoords dimM mm n mo, parseCfg minA maxIter qlo qhi thr with
         | some F, some M, some cfg =>
           showE (do
